@@ -235,6 +235,33 @@ def run_model(driver, lines):
     return _parallel([driver], lines)
 
 
+def run_model_ev(laze, driver, reqs):
+    """run the model, supplying evalexpr results from the real crate on demand"""
+    tables = [dict() for _ in reqs]
+    out = run_model(driver, reqs)
+    for _ in range(80):
+        need = {}
+        for i, r in enumerate(out):
+            t = r.split()
+            if t[:1] == ["needev"] and len(t) > 1 and t[1] not in tables[i]:
+                need.setdefault(t[1], []).append(i)
+        if not need: break
+        exprs = list(need)
+        ans = run_impl_oracle(laze, ["evalexpr " + e for e in exprs])
+        redo = set()
+        for e, a in zip(exprs, ans):
+            for i in need[e]:
+                tables[i][e] = a; redo.add(i)
+        redo = sorted(redo)
+        lines = []
+        for i in redo:
+            tb = tables[i]
+            lines.append(reqs[i] + " %d " % len(tb) + " ".join("%s %s" % (e, ("ok " + a.split()[1]) if a.startswith("ok ") else "err") for e, a in tb.items()))
+        new = run_model(driver, lines)
+        for i, r in zip(redo, new): out[i] = r
+    return out, tables
+
+
 def vm_crosscheck(lines, expected, n=40):
     """Evaluate a sample of requests inside Coq with vm_compute and compare with the extracted
     model's replies: cross-checks extraction + the OCaml driver."""
@@ -249,7 +276,7 @@ def vm_crosscheck(lines, expected, n=40):
                "Definition reqs : list string := ["]
         src.append(";\n".join('"%s"' % lines[i].replace('"', '""') for i in idx))
         src.append("].")
-        src.append("Definition out := map (fun r => string_of_list_ascii (handle (list_ascii_of_string r))) reqs.")
+        src.append("Definition out := map (fun r => string_of_list_ascii (handle2 (list_ascii_of_string r))) reqs.")
         src.append("Set Printing Width 1000000. Set Printing Depth 1000000.")
         src.append("Goal True. let v := eval vm_compute in out in")
         src.append("  let rec pr l := lazymatch l with | ?x :: ?t => idtac \"VMOUT\" x; pr t | _ => idtac end in pr v. exact I. Qed.")
